@@ -22,20 +22,23 @@ PROPS = {
                         "input is well-formed UTF-8 (a Rust &str); for other byte strings C01_format_partial with the per-case nd check applies"],
     },
     "C02": {
-        "level": "other",
+        "level": "proof",
         "lean": ["PasfmtModel.Props.C02"],
         "streams": [
             {"stream": "fmt", "families": "seeds_sample,grammar,layout,regions,mlsfam,marked", "quick": 3000, "thorough": 50000,
-             "binding": ["prec", "out", "*"], "args": {"oracles": "c02"}},
+             "binding": ["prec", "rx", "out", "*"], "args": {"oracles": "c02"}},
         ],
         "oracle_prefixes": ["c02", "glue"],
         "abnormal_binding": False,
-        "explanation": "Proved on the exact models: after every single-line comment the reconstructor emits a line break for every "
-                       "assignment of counters (safety net), and each content rule is exactly its documented normalisation (keywords "
-                       "lower-cased; directives differ only in ASCII case and keep their length; line comments differ only in "
-                       "blanks). NOT proved: stability of the scanner under re-spacing and the non-gluing property of the spacing "
-                       "table; the re-scan oracle (same token kinds and texts up to the normalisations) runs on every well-formed case.",
-        "assumptions": ["relex_stable / spacing_nonglue are oracle-checked, not theorems (partial)"],
+        "explanation": "Proved on the exact models: the scanner is local (scanner_is_local: every token class is decided by its own "
+                       "bytes and at most three bytes of lookahead, for any state and length), hence C02_relex / C02_format: if every "
+                       "emitted token is scanned back inside its three-byte window (decidable contract relexB, evaluated per "
+                       "well-formed case as field rx) then scanning the whole output yields exactly the emitted token vector with the "
+                       "input's kinds; plus: after every single-line comment the reconstructor emits a line break for every assignment "
+                       "of counters (safety net), and each content rule is exactly its documented normalisation. That the spacing "
+                       "decisions satisfy the contract on every well-formed program is grammar knowledge: contract + re-scan oracle.",
+        "assumptions": ["relexB (windowed re-scan of the final token vector) - evaluated per well-formed case (rx=1)",
+                        "parser kinds and wrapper decisions are taken from the real run (correspondence)"],
     },
     "C03": {
         "level": "other",
